@@ -58,13 +58,20 @@ IQ_CASES = (IQI('iqa_', 'h_iqa', {k: IQA_VALID_SHAPES[k] for k in ['addresses_va
             + IQI('bindiq_', 'h_bind_iq', dict(jid=iqcase(1, (T_BIND, N_BIND, (T_JID, N_NONE))))) + IQI('bindiq_', 'h_bind_iq', dict(bind_ext=iqcase(2, (T_BIND, N_BIND), (T_ZZ, N_CLIENT, (T_BIND, N_BIND)))), tiers=('thorough',))
             + IQI('pingiq_', 'h_ping_iq', dict(ping=iqcase(1, (T_PING, N_PING)))) + IQI('pingiq_', 'h_ping_iq', dict(ping_ext=iqcase(2, (T_PING, N_PING, (T_ZZ, N_NONE)), (T_BIND, N_BIND))), tiers=('thorough',)))
 PRES_TUS = ['src/base/QXmppPresence.cpp', 'src/base/QXmppStanza.cpp', 'src/base/QXmppMucIq.cpp', 'src/base/QXmppIq.cpp', 'src/base/QXmppUtils.cpp']
-PRES_SHAPES = ['empty', 'basic', 'basic_dup', 'muc', 'mucuser', 'mucuser_dup', 'caps', 'caps_valid', 'vcard', 'vcard_nophoto', 'moved_idle_mix', 'addresses', 'addresses_foreign', 'error', 'ext', 'lang']
+PRES_SHAPES = ['empty', 'basic', 'basic_dup', 'muc', 'mucuser', 'mucuser_dup', 'caps', 'caps_valid', 'vcard', 'vcard_nophoto', 'moved_idle_mix', 'addresses', 'addresses_foreign', 'error', 'ext', 'lang', 'f_basic', 'f_muc', 'f_mucuser', 'f_caps', 'f_vcard', 'f_moved_mix', 'f_idle', 'f_addresses', 'f_ext']
 def PRES(prefix, entry, names, **kw):
     kw.setdefault('mem_gb', 6); kw.setdefault('timeout_s', 400)
     return [I(prefix + n, entry=entry, dom=10, cdefs={'VP_UTF8_LATIN1': 1, 'VP_CASE': PRES_SHAPES.index(n), 'DOM_MAXATTR': 32, 'DOM_MAXCH': 10}, bound='shape %s; root namespace, attribute presence/values and text symbolic' % n, **kw) for n in names]
+DF_TUS = ['src/base/QXmppDataForm.cpp', 'src/base/QXmppUtils.cpp']
+DF_SHAPES = ['empty', 'props', 'field', 'field_novalue', 'options', 'media', 'nested', 'f_empty', 'f_props', 'f_text', 'f_bool', 'f_multi', 'f_list']
+def DF(prefix, entry, names, **kw):
+    kw.setdefault('mem_gb', 6); kw.setdefault('timeout_s', 400)
+    return [I(prefix + n, entry=entry, dom=10, cdefs={'VP_UTF8_LATIN1': 1, 'VP_CASE': DF_SHAPES.index(n), 'DOM_MAXCH': 10}, bound='shape %s; attribute presence/values and text symbolic' % n, **kw) for n in names]
 SPEC = dict(
     property='C02',
     groups=[
+        dict(name='dataform', harness='h_dataform.cpp', tus=DF_TUS, models=MODELS,
+             instances=DF('df_', 'h_dataform_fix', DF_SHAPES) + DF('dfs_', 'h_dataform_safe', DF_SHAPES)),
         dict(name='presence', harness='h_presence.cpp', tus=PRES_TUS, models=MODELS,
              instances=PRES('pres_', 'h_presence_fix', PRES_SHAPES) + PRES('press_', 'h_presence_safe', PRES_SHAPES)),
         dict(name='stanza', harness='h_stanza.cpp', tus=STANZA_TUS, models=MODELS,
